@@ -30,6 +30,7 @@ EXPLANATION = (
     "protecting use no call that can reach an allocation. A3: the pool enumerates 2**REG_INDEX_BITS registers of bank R."
     ' C14.A4: no use of a register after its release. C14.Z: no truthiness test on an int-typed value in the memory manager and futures.'
     ' C14.P: MemoryManager.reset() reaches every reset_* method and each restores its pool field to the state __init__ gives it. C14.K: nothing remembered across calls depends on an argument that is not part of its key.'
+    ' C14.A3 executes get_inactive_register abstractly for six active sets x activate on / off (first inactive of R0..R15, exhaustion raises, the active set changes exactly when asked).'
 )
 LEVEL_TEXT = (
     "Static analysis, full for the leak clause: every acquire site (floor 25) is proven released or transferred on all normal "
